@@ -89,7 +89,15 @@ static void c36_run(struct evdns_base *base, const char *name, int name_len)
 	edns = base->global_max_udp_size > 512;
 	buf_len = evdns_request_len(base, (size_t)name_len); /* what request_new allocates */
 	VP_ASSERT(buf_len <= C36_BUFMAX, "harness: buffer bound");
+#ifdef C36_TAIL
 	buf = bobj + (C36_BUFMAX - buf_len); /* exact: [buf, buf+buf_len) ends with the object */
+#else
+	/* front-aligned (concrete base: a symbolic base makes every store a symbolic-index array
+	 * update, 15M variables for long names); the object is exact when buf_len == C36_BUFMAX and
+	 * the bytes in [buf_len, C36_BUFMAX) are a canary that must survive the call. */
+	buf = bobj;
+	{ size_t ci; for (ci = 0; ci < C36_BUFMAX; ci++) bobj[ci] = 0xA5; }
+#endif
 
 	encodable = dnsref_name_encodable(name, name_len);
 	is_dot = (name_len == 1 && name[0] == '.');
@@ -100,6 +108,9 @@ static void c36_run(struct evdns_base *base, const char *name, int name_len)
 
 	rlen = evdns_request_data_build(base, name, (size_t)name_len, id, type, klass, buf, buf_len);
 
+#ifndef C36_TAIL
+	{ size_t ci; for (ci = 0; ci < C36_BUFMAX; ci++) if (ci >= buf_len) VP_ASSERT(bobj[ci] == 0xA5, "C36: evdns_request_data_build wrote beyond buf_len"); }
+#endif
 	if (rlen < 0) {
 		if (!is_dot)
 			VP_ASSERT(!encodable, "C36: encodable name rejected by evdns_request_data_build");
@@ -138,7 +149,13 @@ void harness_long(void)
 {
 	struct evdns_base *base = calloc(1, sizeof(*base));
 	char *name = malloc(C36_N + 1);
+#ifdef C36_LAST /* literal length of the last label: with a symbolic length every later offset in
+                 * the 370-byte buffer is symbolic (12M variables, no verdict in 10 min); the
+                 * driver enumerates the boundary lengths instead, everything else stays symbolic */
+	int p, n, last = C36_LAST, dot = vp_bool();
+#else
 	int p, n, last = (int)vp_range(0, 64), dot = vp_bool();
+#endif
 	const int pre = 64 * C36_FULL; /* "a{63}." x C36_FULL */
 	__CPROVER_assume(base && name);
 	__CPROVER_assume(last > 0 || C36_FULL > 0);
@@ -147,8 +164,9 @@ void harness_long(void)
 	n = last > 0 ? pre + last + (dot ? 1 : 0) : (dot ? pre : pre - 1);
 	for (p = 0; p <= C36_N; p++) {
 		char c;
-		if (p >= n) c = 0;
-		else if (p < pre) c = (p % 64 == 63) ? '.' : 'a';
+		if (p < pre - 1) c = (p % 64 == 63) ? '.' : 'a'; /* concrete prefix (n >= pre-1 always) */
+		else if (p >= n) c = 0;
+		else if (p < pre) c = '.';
 		else if (p < pre + last) c = 'a';
 		else c = '.';
 		name[p] = c;
